@@ -140,12 +140,23 @@ pub fn run_config(id: &str, c: &Value) -> Value {
         let mut b: Vec<u8> = wr["bytes"].as_array().unwrap().iter().map(|x| x.as_u64().unwrap() as u8).collect();
         b.extend([0xde, 0xad, 0xbe, 0xef]);
         catch_unwind(AssertUnwindSafe(|| match Ipv6Extensions::from_slice(IpNumber(first), &b) {
-            Ok((d, n, rest)) => json!({"k": "ok", "links": links(&d), "lens": lens(&d), "final": n.0, "rest": rest.len(), "same": if d == e { 1 } else { 0 }}),
-            Err(x) => json!({"k": "err", "links": links(&Ipv6Extensions::default()), "lens": lens(&Ipv6Extensions::default()), "final": -1, "rest": -1, "same": 0, "msg": format!("{:?}", x)}),
+            Ok((d, n, rest)) => {
+                // the other decoders of the same bytes: io::Read based, length limited, lax (struct and slice family)
+                let mut cur = std::io::Cursor::new(&b[..]);
+                let rd = Ipv6Extensions::read(&mut cur, IpNumber(first)).map(|(x, m)| x == d && m == n && cur.position() as usize == b.len() - rest.len()).unwrap_or(false);
+                let mut lr = io::LimitedReader::new(std::io::Cursor::new(&b[..]), b.len() - rest.len(), LenSource::Slice, 0, err::Layer::Ipv6Header);
+                let rl = Ipv6Extensions::read_limited(&mut lr, IpNumber(first)).map(|(x, m)| x == d && m == n).unwrap_or(false);
+                let lx = Ipv6Extensions::from_slice_lax(IpNumber(first), &b);
+                let lax = lx.0 == d && lx.1 == n && lx.2.len() == rest.len() && lx.3.is_none();
+                let sl = Ipv6ExtensionsSlice::from_slice(IpNumber(first), &b).map(|(x, m, r)| m == n && r.len() == rest.len() && x.slice().len() == b.len() - rest.len()).unwrap_or(false);
+                json!({"k": "ok", "links": links(&d), "lens": lens(&d), "final": n.0, "rest": rest.len(), "same": if d == e { 1 } else { 0 },
+                       "doors": [if rd { 1 } else { 0 }, if rl { 1 } else { 0 }, if lax { 1 } else { 0 }, if sl { 1 } else { 0 }]})
+            }
+            Err(x) => json!({"k": "err", "links": links(&Ipv6Extensions::default()), "lens": lens(&Ipv6Extensions::default()), "final": -1, "rest": -1, "same": 0, "doors": [], "msg": format!("{:?}", x)}),
         }))
-        .unwrap_or_else(|_| json!({"k": "panic", "links": links(&Ipv6Extensions::default()), "lens": lens(&Ipv6Extensions::default()), "final": -1, "rest": -1, "same": 0}))
+        .unwrap_or_else(|_| json!({"k": "panic", "links": links(&Ipv6Extensions::default()), "lens": lens(&Ipv6Extensions::default()), "final": -1, "rest": -1, "same": 0, "doors": []}))
     } else {
-        json!({"k": "skip", "links": links(&Ipv6Extensions::default()), "lens": lens(&Ipv6Extensions::default()), "final": -1, "rest": -1, "same": 0})
+        json!({"k": "skip", "links": links(&Ipv6Extensions::default()), "lens": lens(&Ipv6Extensions::default()), "final": -1, "rest": -1, "same": 0, "doors": []})
     };
     // set_next_headers(17) then walk + write
     let mut s = e.clone();
